@@ -129,6 +129,9 @@ func ToValue(n wire.Node) ttlv.Value {
 		v.Value = string(n.Bytes)
 	case wire.ByteString:
 		v.Value = append([]byte{}, n.Bytes...)
+		if len(n.Bytes) == 0 && n.Tag%2 == 1 {
+			v.Value = []byte(nil) // an empty byte string held as a nil slice is still an empty byte string
+		}
 	case wire.DateTime:
 		v.Value = time.Unix(n.Int, 0)
 	case wire.Interval:
